@@ -7,6 +7,9 @@ weights summing to `W`) is "within one request of its share" iff
     w * n < (c + 1) * W   (c > share*n - 1)   and   c * W < w * n + W   (c < share*n + 1).
 -/
 import ForML.Model.Strategy
+import ForML.Lemmas.C17Float
+import ForML.Lemmas.C17LatestFresh
+import ForML.Lemmas.C17Explicit
 
 namespace ForML.Strategy
 
@@ -294,6 +297,95 @@ theorem C17_two (w1 w2 : Nat) (hpos : 0 < w1 + w2) (n : Nat) :
   simp [UpperOK, LowerOK] at hu hl ⊢
   exact ⟨hu, hl⟩
 
+/-! ### IEEE-754: the binary64 eligibility test selects exactly what the exact model selects -/
+
+private theorem mem_le_sumW (sl : List Slot) : ∀ x ∈ sl, x.1 ≤ sumW sl := by
+  induction sl with
+  | nil => intro x hx; cases hx
+  | cons y r ih =>
+    obtain ⟨w, c⟩ := y
+    intro x hx
+    rcases List.mem_cons.mp hx with rfl | hx
+    · simp [sumW]
+    · have := ih x hx; simp only [sumW]; omega
+
+private theorem mem_le_sumC (sl : List Slot) : ∀ x ∈ sl, x.2 ≤ sumC sl := by
+  induction sl with
+  | nil => intro x hx; cases hx
+  | cons y r ih =>
+    obtain ⟨w, c⟩ := y
+    intro x hx
+    rcases List.mem_cons.mp hx with rfl | hx
+    · simp [sumC]
+    · have := ih x hx; simp only [sumC]; omega
+
+private theorem step_total (s s' : State) (h : step s = some s') : s'.total = s.total + 1 := by
+  unfold step at h
+  split at h
+  · cases h
+  · cases h; rfl
+
+private theorem ftraceS_eq (ws : List Nat) (hpos : ∀ w ∈ ws, 0 < w) :
+    ∀ k s, Inv ws s → sumW s.slots = ws.sum → (s.total + k) * ws.sum < 2 ^ 52 → ftraceS s k = trace s k := by
+  intro k
+  induction k with
+  | zero => intro s _ _ _; rfl
+  | succ k ih =>
+    intro s hi hw hb
+    have hok : SlotsOK (sumW s.slots) (s.total + 1) s.slots := by
+      intro x hx
+      have hx1 : x.1 ∈ ws := by rw [← hi.weights]; exact List.mem_map_of_mem hx
+      have := mem_le_sumC s.slots x hx
+      rw [hi.counts] at this
+      exact ⟨hpos _ hx1, mem_le_sumW s.slots x hx, by omega⟩
+    have hnW : (s.total + 1) * sumW s.slots < 2 ^ 52 := by
+      rw [hw]
+      have : (s.total + 1) * ws.sum ≤ (s.total + (k + 1)) * ws.sum := Nat.mul_le_mul_right _ (by omega)
+      omega
+    have hn1 : 0 < s.total + 1 := by omega
+    have e1 := fPickIdx_eq hn1 hnW s.slots hok
+    have e2 : fstep s = step s := by
+      unfold fstep step
+      rw [fHitFirst_eq hn1 hnW s.slots hok]
+      cases hitFirst (sumW s.slots) (s.total + 1) s.slots <;> rfl
+    simp only [ftraceS, trace, e1, e2]
+    cases hp : pickIdx (sumW s.slots) (s.total + 1) s.slots with
+    | none => rfl
+    | some i =>
+      cases hs : step s with
+      | none => rfl
+      | some s' =>
+        simp only
+        rw [ih s' (inv_step ws s s' hi hs) (by rw [step_sumW s s' hs, hw])
+          (by rw [step_total s s' hs]; have : s.total + 1 + k = s.total + (k + 1) := by omega
+              rw [this]; exact hb)]
+
+/-- **C17_float_agrees**: for positive integer weights `ws` (the constructor's targets `w / W` are then correctly
+rounded quotients of integers; integers and dyadic fractions scale to this) and any number of requests `n` with
+`n * W < 2^52`, the selection sequence computed with the binary64 test `count / total < target` is the selection
+sequence of the exact model – every theorem above about `run`/`trace` is a theorem about the float mechanism.
+(A flip needs `n * W ≥ 2^52`: with `W ≤ 1000` more than `4.5 * 10^12` requests.) -/
+theorem C17_float_agrees (ws : List Nat) (hpos : ∀ w ∈ ws, 0 < w) (n : Nat) (hb : n * ws.sum < 2 ^ 52) :
+    ftrace ws n = trace (init ws) n := by
+  apply ftraceS_eq ws hpos n (init ws) (inv_init ws) (by simp [init, sumW_init])
+  simpa [init] using hb
+
+/-- one eligibility test: binary64 = exact, including the boundary `count / total = w / W` -/
+theorem C17_float_eligible (W n w c : Nat) (hn : 0 < n) (hcn : c ≤ n) (hw : 0 < w) (hwW : w ≤ W)
+    (hnW : n * W < 2 ^ 52) : fEligible W n w c = true ↔ c * W < w * n :=
+  fEligible_iff hn hcn hw hwW hnW
+
+/-- the rounded quotient is a normal binary64 within half an ulp of the exact one -/
+theorem C17_float_round (a b : Nat) (ha : 0 < a) (hab : a ≤ b) :
+    2 ^ 52 ≤ (fdiv a b).1 ∧ (fdiv a b).1 < 2 ^ 53 ∧
+      2 * (a * 2 ^ (fdiv a b).2) ≤ 2 * (fdiv a b).1 * b + b ∧
+      2 * (fdiv a b).1 * b ≤ 2 * (a * 2 ^ (fdiv a b).2) + b ∧ 52 ≤ (fdiv a b).2 :=
+  fdiv_spec ha hab
+
+/-- equal ratios round alike -/
+theorem C17_float_ratio (a b a' b' : Nat) (ha : 0 < a) (ha' : 0 < a') (hb : 0 < b) (hb' : 0 < b')
+    (h : a * b' = a' * b) : fdiv a b = fdiv a' b' := fdiv_ratio ha ha' hb hb' h
+
 /-! ### C17 — the full statement and its refutation for the code that exists -/
 
 /-- The property as stated: every variant within one request of its share after every `n`. -/
@@ -392,6 +484,47 @@ theorem C17_normalise_complement (ts : List (Option Nat)) (d : Nat)
   rw [this, Nat.mul_comm]
   congr 1; omega
 
+private theorem map_getD_of_no_missing (ts : List (Option Nat)) (h : missingCount ts = 0) :
+    ts.map (fun t => t.getD 0) = ts.map (fillWith 1 0) := by
+  induction ts with
+  | nil => rfl
+  | cons t r ih =>
+    cases t with
+    | none => simp [missingCount] at h
+    | some n => simp [missingCount] at h; simp [fillWith, ih h]
+
+private theorem givenCount_pos (ts : List (Option Nat)) (h : 0 < explicitSum ts) : 0 < givenCount ts := by
+  induction ts with
+  | nil => simp [explicitSum] at h
+  | cons t r ih =>
+    cases t with
+    | none => simp [explicitSum] at h; simp [givenCount, ih h]
+    | some n => simp [givenCount]
+
+/-- **C17_normalise_positions**: whatever rule fills the omitted targets, the weights are the declared targets
+*position by position*: every explicit target scaled by one common positive factor, every omitted one replaced by
+one common implicit weight – a weight never moves to another variant. -/
+theorem C17_normalise_positions (ts : List (Option Nat)) (d : Nat) (hd : 0 < d) :
+    ∃ scale implicit, 0 < scale ∧ weights ts d = ts.map (fillWith scale implicit) := by
+  unfold weights
+  split
+  · rename_i h
+    exact ⟨1, 0, by omega, map_getD_of_no_missing ts h⟩
+  · rename_i h
+    split
+    · exact ⟨missingCount ts, d - explicitSum ts, by omega, rfl⟩
+    · rename_i h2
+      exact ⟨givenCount ts, explicitSum ts, givenCount_pos ts (by omega), rfl⟩
+
+/-- the mean rule: with the explicit targets summing to at least 1, every omitted target weighs the mean of the
+explicit ones (`explicit / given`), i.e. the weights sum to `explicit * (given + missing)` over the common scale. -/
+theorem C17_normalise_mean (ts : List (Option Nat)) (d : Nat) (hm : 0 < missingCount ts) (he : d ≤ explicitSum ts) :
+    (weights ts d).sum = explicitSum ts * (givenCount ts + missingCount ts) := by
+  have hm' : ¬ missingCount ts = 0 := by omega
+  have he' : ¬ explicitSum ts < d := by omega
+  simp only [weights, hm', he', if_false]
+  rw [weights_sum_complement, Nat.mul_add, Nat.mul_comm (missingCount ts)]
+
 /-! ### Latest -/
 
 /-- **C17_latest**: `pick` returns `(r, g)` iff `r` is the highest release having any generation and
@@ -455,6 +588,136 @@ theorem C17_latest_refresh (pre post : List (Nat × List Nat)) (r g : Nat) (gs :
     obtain ⟨rk, gs'⟩ := x
     simp only [List.cons_append, pickLatest, ih]
 
+/-! ### Latest over registry histories `publish r | commit r | tick | select use`
+
+`execL survive cfg (LState.init rels0) ops` is the state any history `ops` leads to from a registry `rels0`
+(`survive = false`: `_refresh` as it is; `cfg`: the configured release or none).  `Spec cfg rels r g` is the property
+text: `g` is the newest generation of the highest release that has any (or of the configured release `r`).  The
+request observed is `select` followed by a use of the instance (`Obs.served r g`). -/
+
+/-- **C17_latest_first**: the first use of a registry – after any history – resolves to the newest generation of the
+highest release having any, resp. of the configured release (both configurations, code as is or repaired). -/
+theorem C17_latest_first (sv : Bool) (cfg : Option Nat) (rels0 : Rels) (hwf : WF rels0) (ops : List LOp) (r g : Nat) :
+    (execL sv cfg (LState.init rels0) ops).cache = none →
+    Spec cfg (execL sv cfg (LState.init rels0) ops).rels r g →
+    (stepL sv cfg (execL sv cfg (LState.init rels0) ops) (.select true)).2 = .served r g :=
+  fun hc hs => first_select (invL_exec ops (invL_init hwf)).wf hc hs
+
+/-- … and raises (`Level.Listing.Empty` / `Level.Invalid`) exactly when there is no such generation. -/
+theorem C17_latest_first_none (sv : Bool) (cfg : Option Nat) (rels0 : Rels) (hwf : WF rels0) (ops : List LOp) :
+    (execL sv cfg (LState.init rels0) ops).cache = none →
+    (∀ r g, ¬ Spec cfg (execL sv cfg (LState.init rels0) ops).rels r g) →
+    ∃ e, (stepL sv cfg (execL sv cfg (LState.init rels0) ops) (.select true)).2 = .err e :=
+  fun hc hs => first_select_none (invL_exec ops (invL_init hwf)).wf hc hs
+
+/-- **C17_latest** (no release configured, `_refresh` as it is, every history): once the selector has been used,
+the refresher is alive, and after its next round a request is served by the newest generation of the highest
+release that has any – whatever was committed or published, to whichever release, before or after the instance
+was used. -/
+theorem C17_latest (rels0 : Rels) (hwf : WF rels0) (ops : List LOp) (r g : Nat) :
+    (execL false none (LState.init rels0) ops).cache ≠ none →
+    Spec none (execL false none (LState.init rels0) ops).rels r g →
+    (execL false none (LState.init rels0) ops).alive = true ∧
+    (stepL false none (stepL false none (execL false none (LState.init rels0) ops) .tick).1 (.select true)).2
+      = .served r g := by
+  intro hc hs
+  obtain ⟨hinv, halive⟩ := reach_unconfigured hwf ops
+  obtain ⟨h1, _, h3⟩ := tick_fresh (sv := false) hinv (halive hc) hc hs
+  exact ⟨halive hc, obs_select_served h3 h1⟩
+
+/-- unconfigured, and something was cached: there always is something to resolve to -/
+theorem C17_latest_spec_exists (rels0 : Rels) (hwf : WF rels0) (ops : List LOp) :
+    (execL false none (LState.init rels0) ops).cache ≠ none →
+    ∃ r g, Spec none (execL false none (LState.init rels0) ops).rels r g :=
+  fun hc => cached_spec_none (reach_unconfigured hwf ops).1 hc
+
+/-- The same statement for a configured release, at full strength: false for the code that exists. -/
+def C17_latest_configured_full : Prop :=
+  ∀ (rels0 : Rels) (c : Nat) (ops : List LOp) (r g : Nat), WF rels0 →
+    (execL false (some c) (LState.init rels0) ops).cache ≠ none →
+    Spec (some c) (execL false (some c) (LState.init rels0) ops).rels r g →
+    (stepL false (some c) (stepL false (some c) (execL false (some c) (LState.init rels0) ops) .tick).1
+      (.select true)).2 = .served r g
+
+/-- decidable form of "the configured release has a generation" -/
+def hasGenB (rels : Rels) (c : Nat) : Bool :=
+  match gensOf rels c with
+  | some (_ :: _) => true
+  | _ => false
+
+/-- **C17_latest_configured_partial**: when the configured release has a generation in the registry the selector
+first meets, every history keeps the refresher alive and every refresh round brings the newest generation of the
+configured release – commits to other (higher or lower) releases change nothing. -/
+theorem C17_latest_configured_partial (rels0 : Rels) (c : Nat) (hwf : WF rels0) (hgen : hasGenB rels0 c = true)
+    (ops : List LOp) (r g : Nat) :
+    (execL false (some c) (LState.init rels0) ops).cache ≠ none →
+    Spec (some c) (execL false (some c) (LState.init rels0) ops).rels r g →
+    (execL false (some c) (LState.init rels0) ops).alive = true ∧
+    (stepL false (some c) (stepL false (some c) (execL false (some c) (LState.init rels0) ops) .tick).1
+      (.select true)).2 = .served r g := by
+  intro hc hs
+  have hg : HasGen rels0 c := by
+    unfold hasGenB at hgen
+    split at hgen
+    · rename_i a l h; exact ⟨a :: l, h, by simp⟩
+    · cases hgen
+  obtain ⟨hinv, halive, _⟩ := reach_configured hwf hg ops
+  obtain ⟨h1, _, h3⟩ := tick_fresh (sv := false) hinv (halive hc) hc hs
+  exact ⟨halive hc, obs_select_served h3 h1⟩
+
+/-- release 1 is published but empty when `Latest(project, release=1)` is first used: the first refresh round
+raises `Listing.Empty` in `new != old` and ends the thread; generation 1 is committed and served (pinned);
+generation 2 is committed – and never picked up (finding C17-F2). -/
+theorem C17_latest_configured_counterexample : ¬ C17_latest_configured_full := by
+  intro h
+  have hwf : WF [(1, [])] := by simp [WF]
+  have := h [(1, [])] 1 [.select false, .tick, .commit 1, .select true, .commit 1] 1 2 hwf (by decide)
+    ⟨rfl, [1, 2], by decide, by decide, by decide⟩
+  revert this
+  decide
+
+/-- **C17_latest_repaired**: with the refresher surviving a failing round
+(fixes/C17-refresher-survives-errors.diff) the statement holds at full strength in both configurations. -/
+theorem C17_latest_repaired (cfg : Option Nat) (rels0 : Rels) (hwf : WF rels0) (ops : List LOp) (r g : Nat) :
+    (execL true cfg (LState.init rels0) ops).cache ≠ none →
+    Spec cfg (execL true cfg (LState.init rels0) ops).rels r g →
+    (stepL true cfg (stepL true cfg (execL true cfg (LState.init rels0) ops) .tick).1 (.select true)).2
+      = .served r g := by
+  intro hc hs
+  obtain ⟨hinv, halive⟩ := reach_repaired (cfg := cfg) hwf ops
+  obtain ⟨h1, _, h3⟩ := tick_fresh (sv := true) hinv (halive hc) hc hs
+  exact obs_select_served h3 h1
+
+/-- every history keeps the listings as `Level.Listing` yields them and what is cached listed -/
+theorem C17_latest_invariant (sv : Bool) (cfg : Option Nat) (rels0 : Rels) (hwf : WF rels0) (ops : List LOp) :
+    InvL cfg (execL sv cfg (LState.init rels0) ops) := invL_exec ops (invL_init hwf)
+
+/-- what `Spec` names is unique -/
+theorem C17_latest_spec_unique (cfg : Option Nat) (rels : Rels) (hwf : WF rels) (r g r' g' : Nat) :
+    Spec cfg rels r g → Spec cfg rels r' g' → r = r' ∧ g = g' := spec_unique hwf
+
+/-! ### `asset.Instance` equality and hash (what `_refresh` decides on) -/
+
+/-- **C17_instance_eq**: `a == b` is `True` exactly for the same project, the same release and the same resolved
+generation (a comparison by generation number alone would keep a refresher on an older release) … -/
+theorem C17_instance_eq (rels : Rels) (a b a' b' : Inst) (v : Bool) (h : instEq rels a b = .ok (v, a', b')) :
+    v = true ↔ a.project = b.project ∧ a.release = b.release ∧ genKey rels a = genKey rels b :=
+  instEq_true_iff h
+
+/-- … and equal instances hash alike. -/
+theorem C17_instance_hash (rels : Rels) (a b a' b' : Inst) (h : instEq rels a b = .ok (true, a', b')) :
+    instHash rels a = instHash rels b := instEq_hash h
+
+/-! ### Explicit -/
+
+/-- **C17_explicit**: over every history of the registry every `select` of the explicit strategy returns the
+configured instance: a request is served by exactly `(r, g)` when that generation is listed and is refused
+(`Level.Invalid`) otherwise – nothing else is ever observed. -/
+theorem C17_explicit (r g : Nat) (rels0 : Rels) (ops : List EOp) :
+    (stepE r g (execE r g ⟨rels0, none⟩ ops) .select).2 = explicitObs r g (execE r g ⟨rels0, none⟩ ops).rels ∧
+    ∀ o ∈ (runE r g ⟨rels0, none⟩ ops).2, o = .quiet ∨ o = .served r g ∨ o = .err .invalid :=
+  ⟨(stepE_select (invE_exec ops (Or.inl rfl))).1, runE_obs ops (Or.inl rfl)⟩
+
 /-! ### non-vacuity -/
 
 example : run (init [12, 5, 5]) 15 = some ⟨[(12, 9), (5, 4), (5, 2)], 15⟩ := by decide
@@ -462,7 +725,34 @@ example : trace (init [9, 1]) 10 = [0, 0, 0, 0, 0, 0, 0, 0, 0, 1] := by decide
 example : weights [some 9, none] 10 = [9, 1] := by decide
 example : weights [some 3, none, none] 1 = [3, 3, 3] := by decide
 example : weights [some 1, none, none] 4 = [2, 3, 3] := by decide
+example : weights [none, some 7] 8 = [1, 7] := by decide
+example : weights [none, some 6, none, some 1] 8 = [1, 12, 1, 2] := by decide
+example : ftrace [12, 5, 5] 15 = trace (init [12, 5, 5]) 15 := by decide
+example : fdiv 1 3 = (6004799503160661, 54) := by decide
 example : slotOrder [5, 12, 5] = [(12, 1), (5, 0), (5, 2)] := by decide
 example : pickLatest [(1, [1, 2]), (2, []), (3, [1]), (4, [])] = some (3, 1) := by decide
+
+-- histories: unconfigured picks up a commit to a higher release; configured (non-empty) ignores it and follows its own
+example : (runL false none (LState.init [(1, [1]), (2, [])])
+    [.select true, .commit 2, .tick, .select true, .commit 1, .tick, .select true]).2
+    = [.served 1 1, .quiet, .quiet, .served 2 1, .quiet, .quiet, .served 2 1] := by decide
+example : (runL false (some 1) (LState.init [(1, [1]), (2, [1])])
+    [.select true, .commit 2, .commit 1, .select true, .tick, .select true]).2
+    = [.served 1 1, .quiet, .quiet, .served 1 1, .quiet, .served 1 2] := by decide
+-- the finding: configured release empty at first use (as is / repaired)
+example : (runL false (some 1) (LState.init [(1, [])])
+    [.select false, .tick, .commit 1, .select true, .commit 1, .tick, .select true]).2
+    = [.picked 1, .quiet, .quiet, .served 1 1, .quiet, .quiet, .served 1 1] := by decide
+example : (runL true (some 1) (LState.init [(1, [])])
+    [.select false, .tick, .commit 1, .select true, .commit 1, .tick, .select true]).2
+    = [.picked 1, .quiet, .quiet, .served 1 1, .quiet, .quiet, .served 1 2] := by decide
+example : WF [(1, [1, 2]), (3, []), (7, [1])] := by simp [WF]
+example : Spec none [(1, [1, 2]), (3, []), (7, [4, 9]), (8, [])] 7 9 :=
+  ⟨⟨[4, 9], by simp, by simp, by simp⟩, by simp⟩
+example : hasGenB [(1, [1]), (2, [])] 1 = true := by decide
+example : instEq [(1, [1]), (2, [1])] ⟨0, 1, some 1⟩ ⟨0, 2, some 1⟩ = .ok (false, ⟨0, 1, some 1⟩, ⟨0, 2, some 1⟩) := by rfl
+example : instEq [(1, [1, 2])] ⟨0, 1, none⟩ ⟨0, 1, some 2⟩ = .ok (true, ⟨0, 1, some 2⟩, ⟨0, 1, some 2⟩) := by rfl
+example : (runE 1 2 ⟨[(1, [1])], none⟩ [.select, .commit 1, .select, .commit 2, .select]).2
+    = [.err .invalid, .quiet, .served 1 2, .quiet, .served 1 2] := by decide
 
 end ForML.Strategy
